@@ -148,6 +148,10 @@ def runMeas (c : Case) : Res :=
               match valOf c s!"facet{i}" with
               | some (.ok v) => if Q.lt (Q.ofInt 0) v then bad := s!"facet{i} returned {qShow v} for an exactly degenerate facet (exact measure 0)" :: bad
               | _ => pure ()
+        -- D = 1: the two facets of a segment are points (counting measure 1 each), so the general
+        -- formula D·V/S gives half the length - the value the library documents for segments
+        if d == 1 then surface := ⟨Q.ofInt 2, Q.ofInt 2⟩
+        if d ≥ 1 then
           -- inradius = D V / S
           let inIv := ivDiv (ivScale (Q.ofInt d) volIv) surface
           bad := checkG "inradius" inIv ++ bad
